@@ -4,6 +4,7 @@ import (
 	"encoding/json"
 	"fmt"
 	"os"
+	"time"
 	"os/exec"
 	"sort"
 	"strings"
@@ -38,6 +39,8 @@ func sessionDriver(args []string) (*Summary, error) {
 	}
 	defer inputs.Close()
 	s := &Summary{Counters: map[string]int{}}
+	kinds := []string{"noext-utc", "noext-ny", "nycttrips", "alerts-complex", "alerts-none"}
+	sess.InitReferences(kinds)
 	n := 0
 	err = abs.ReadLines(*fl.in, func(line []byte) error {
 		var c sess.Case
@@ -71,7 +74,7 @@ func sessionDriver(args []string) (*Summary, error) {
 	sort.Strings(names)
 	self, _ := os.Executable()
 	for _, name := range names {
-		for _, kind := range []string{"noext-utc", "noext-ny", "nycttrips", "alerts-complex", "alerts-none"} {
+		for _, kind := range kinds {
 			id := "det-" + name + "-" + kind
 			rec := sess.DetRecord{G: "determinism", Case: id, Input: name, Obj: kind}
 			for i := 0; i < 8; i++ {
@@ -99,6 +102,19 @@ func sessionDriver(args []string) (*Summary, error) {
 			s.Counters["determinism_parses"] += len(rec.Digests)
 		}
 	}
+	// nothing may depend on the wall clock: the same bytes before and after an instant named in the message
+	clock := sess.ClockInput(700 * time.Millisecond)
+	sess.Inputs["clock"] = clock
+	rec := sess.DetRecord{G: "determinism", Case: "det-clock-nycttrips", Input: "clock", Obj: "nycttrips"}
+	for i := 0; i < 2; i++ {
+		res, errs, _, _ := sess.Parse("clock", sess.NewObj("nycttrips"))
+		rec.Digests = append(rec.Digests, res+errs)
+		if i == 0 {
+			time.Sleep(1500 * time.Millisecond)
+		}
+	}
+	inputs.Write(map[string]any{"case": rec.Case, "input": map[string]string{"input": "a message without header timestamp whose first stop time lies 0.7 s ahead, parsed now and 1.5 s later", "obj": "nycttrips"}})
+	w.Write(rec)
 	s.Records = w.N
 	return s, w.Close()
 }
